@@ -41,6 +41,8 @@ pub enum Want {
     Differential,
     /// C12
     ThreadLocal,
+    /// C07: inner dispatches of a batch do not run into each other
+    InnerSequence,
 }
 
 pub struct SchedProp {
@@ -128,6 +130,7 @@ impl SchedProp {
                 Want::ThreadLocal => {
                     check_thread_local(&b.flat, &wins, caller, if entry.runs_tl() { 1 } else { 0 })?
                 }
+                Want::InnerSequence => check_inner_sequence(&b.flat, &wins)?,
                 _ => {}
             }
         }
